@@ -564,7 +564,11 @@ class Interp:
 
     def e_cond(self, e):
         self.tick()
-        c = self.truth(self.ev(e[1]))
+        if "unary-fold-unreduced" in self.D and is_const_expr(e[1]):
+            # the folded condition is tested with the value the fold left (a folded ~ / - is not reduced to its type)
+            c = self.ev_raw(e[1])[1] != 0
+        else:
+            c = self.truth(self.ev(e[1]))
         # the result type is the common type of both arms: type the other arm statically
         taken = e[2] if c else e[3]
         other = e[3] if c else e[2]
